@@ -894,4 +894,37 @@ theorem hexToUint64_prefix (t r : List Byte) (hl : t.length = 16) : hexToUint64 
 example : hexToUint16M [0x61, 0x42, 0x33, 0x44] = some 0xAB3D#16 ∧ hexToUint16M [0x61, 0x42, 0x33] = none := by decide
 example : hexToUint16 ([0x61, 0x42, 0x33, 0x44] ++ [0x46, 0x46]) = 0xAB3D#16 := by decide
 
+/-! ## Round 3b: the domains of the "encode ∘ decode = id" theorems, exactly
+
+`hexDecode_accepts` and `hex_uintN_inverse` carry the hypothesis "upper-case hex digits (and the right length)".
+These are not merely sufficient: outside them the composition never gives the text back. -/
+
+/-- `hexascii_encode(hexascii_decode t) = t` ⇔ `t` has even length and consists of `0-9A-F` (every text) -/
+theorem hexDecode_accepts_iff (s : List Byte) :
+    hexEncode (hexDecode s) = s ↔ s.length % 2 = 0 ∧ ∀ c ∈ s, IsUpperHex c := by
+  constructor
+  · intro h
+    refine ⟨?_, by rw [← h]; exact hexEncode_alphabet _⟩
+    have := congrArg List.length h
+    rw [hexEncode_length, hexDecode_length] at this
+    omega
+  · intro ⟨hl, hc⟩; exact hexDecode_accepts s hc hl
+
+theorem hex_uint8_inverse_iff (t : List Byte) (hl : t.length = 2) :
+    uint8ToHex (hexToUint8 t) = t ↔ ∀ c ∈ t, IsUpperHex c :=
+  ⟨fun h => h ▸ (uint8ToHex_alphabet _).2, fun hc => hex_uint8_inverse t hc hl⟩
+theorem hex_uint16_inverse_iff (t : List Byte) (hl : t.length = 4) :
+    uint16ToHex (hexToUint16 t) = t ↔ ∀ c ∈ t, IsUpperHex c :=
+  ⟨fun h => h ▸ (uint16ToHex_alphabet _).2, fun hc => hex_uint16_inverse t hc hl⟩
+theorem hex_uint32_inverse_iff (t : List Byte) (hl : t.length = 8) :
+    uint32ToHex (hexToUint32 t) = t ↔ ∀ c ∈ t, IsUpperHex c :=
+  ⟨fun h => h ▸ (uint32ToHex_alphabet _).2, fun hc => hex_uint32_inverse t hc hl⟩
+theorem hex_uint64_inverse_iff (t : List Byte) (hl : t.length = 16) :
+    uint64ToHex (hexToUint64 t) = t ↔ ∀ c ∈ t, IsUpperHex c :=
+  ⟨fun h => h ▸ (uint64ToHex_alphabet _).2, fun hc => hex_uint64_inverse t hc hl⟩
+
+-- both sides of the equivalences occur: "A9" is given back, "a9" and "A9A" are not
+example : hexEncode (hexDecode [0x41, 0x39]) = [0x41, 0x39] ∧ hexEncode (hexDecode [0x61, 0x39]) ≠ [0x61, 0x39] ∧
+    hexEncode (hexDecode [0x41, 0x39, 0x41]) ≠ [0x41, 0x39, 0x41] := by decide
+
 end Igris.C18
